@@ -1,5 +1,108 @@
-import Smooth.Model.Surface
+/-
+C07 — Derivative queries fail exactly where the expression itself is undefined.
+
+Numeric routes (everything that does not go through a stored symbolic partial): forward mode
+(`Partial.at`, `Derivative.at`, `Differential.component(..).at`, `component_at`, all not computed
+early) and reverse mode (`LocatedDifferential(e, p)`, `Differential(e).at(p)`).  The early routes
+evaluate the original expression first and then a simplified symbolic partial; for them the
+statement additionally needs "simplification never shrinks the domain" (C08), which holds up to the
+recorded defect K1 — see Properties/C06.lean / C08.lean for the `_partial` statements.
+-/
+import Smooth.Proofs.Reverse
+import Smooth.Model.Objects
+
 namespace Smooth
-/-- placeholder while the property file is being written -/
-theorem C07_placeholder : (1 : Nat) = 1 := rfl
+open Expr
+
+/-- **C07, forward mode.**  At a point that supplies the expression, forward mode returns a number
+iff evaluation does … -/
+theorem fwd_ok_iff (p : Point ℝ) (x : String) (e : Expr ℝ) (hwf : WF e) (hs : Supp p e) :
+    (∃ d, fwdG realNum p x e = .ok d) ↔ (∃ v, evalG realNum p e = .ok v) := by
+  constructor
+  · rintro ⟨d, hd⟩
+    by_cases hdom : Dom (valOf p) e
+    · exact ⟨_, (evalR_good p e hwf).ok_iff.mpr ⟨hs, hdom, rfl⟩⟩
+    · have := (fwdR_spec p x e hwf).2.1 hs hdom
+      rw [hd] at this; cases this
+  · rintro ⟨v, hv⟩
+    obtain ⟨_, hdom, _⟩ := (evalR_good p e hwf).ok_iff.mp hv
+    obtain ⟨d, h, _⟩ := (fwdR_spec p x e hwf).1 hs hdom
+    exact ⟨d, h⟩
+
+/-- … and raises `DomainError` iff evaluation does: it never returns a number where the expression
+has no value — whatever rule could have skipped the undefined part (exponent of a base that
+evaluates to one, factor next to zero, zero numerator, variable-free sub-trees) — and never raises
+where the expression is defined. -/
+theorem fwd_domain_iff (p : Point ℝ) (x : String) (e : Expr ℝ) (hwf : WF e) (hs : Supp p e) :
+    fwdG realNum p x e = .error .domain ↔ evalG realNum p e = .error .domain := by
+  rw [(evalR_good p e hwf).domain_iff hs]
+  constructor
+  · intro h hdom
+    obtain ⟨d, h', _⟩ := (fwdR_spec p x e hwf).1 hs hdom
+    rw [h] at h'; cases h'
+  · exact (fwdR_spec p x e hwf).2.1 hs
+
+/-- **C07, reverse mode.**  The same for one reverse traversal from any accumulator … -/
+theorem rev_ok_iff (p : Point ℝ) (e : Expr ℝ) (hwf : WF e) (hs : Supp p e) (m : ℝ) (acc : Acc ℝ) :
+    (∃ a, revG realNum p e m acc = .ok a) ↔ (∃ v, evalG realNum p e = .ok v) := by
+  constructor
+  · rintro ⟨a, ha⟩
+    by_cases hdom : Dom (valOf p) e
+    · exact ⟨_, (evalR_good p e hwf).ok_iff.mpr ⟨hs, hdom, rfl⟩⟩
+    · have := (revR_spec p e hwf m acc).2.1 hs hdom
+      rw [ha] at this; cases this
+  · rintro ⟨v, hv⟩
+    obtain ⟨_, hdom, _⟩ := (evalR_good p e hwf).ok_iff.mp hv
+    obtain ⟨a, h, _⟩ := (revR_spec p e hwf m acc).1 hs hdom
+    exact ⟨a, h⟩
+
+theorem rev_domain_iff (p : Point ℝ) (e : Expr ℝ) (hwf : WF e) (hs : Supp p e) (m : ℝ)
+    (acc : Acc ℝ) :
+    revG realNum p e m acc = .error .domain ↔ evalG realNum p e = .error .domain := by
+  rw [(evalR_good p e hwf).domain_iff hs]
+  constructor
+  · intro h hdom
+    obtain ⟨a, h', _⟩ := (revR_spec p e hwf m acc).1 hs hdom
+    rw [h] at h'; cases h'
+  · exact (revR_spec p e hwf m acc).2.1 hs
+
+/-- … hence for constructing a `LocatedDifferential` -/
+theorem located_domain_iff (p : Point ℝ) (e : Expr ℝ) (hwf : WF e) (hs : Supp p e) :
+    (∃ L, LocatedObj.new realNum e p = .ok L) ↔ (∃ v, evalG realNum p e = .ok v) := by
+  rw [← rev_ok_iff p e hwf hs 1 []]
+  simp only [LocatedObj.new, numericPartials, realNum_one]
+  constructor
+  · rintro ⟨L, h⟩
+    cases hr : revG realNum p e 1 [] with
+    | error err => simp [hr, bind, Except.bind] at h
+    | ok a => exact ⟨a, rfl⟩
+  · rintro ⟨a, h⟩
+    simp [h, bind, Except.bind, pure, Except.pure]
+
+/-- the late `Partial` object is forward mode, so the two forward statements are about `Partial.at`,
+`Derivative.at`, `Differential.component(..).at` and `component_at` of objects not computed early -/
+theorem partial_late_is_fwd (e : Expr ℝ) (x : String) (p : Point ℝ) :
+    (PartialObj.mk e x none).at realNum p = fwdG realNum p x e := rfl
+
+theorem differential_late_component_is_fwd (e : Expr ℝ) (x : String) (p : Point ℝ) :
+    (DifferentialObj.mk e none).componentAt realNum x p = fwdG realNum p x e := by
+  simp [DifferentialObj.componentAt, DifferentialObj.component, PartialObj.new, bind, Except.bind,
+    pure, Except.pure, PartialObj.at]
+
+/-- the repaired defect F2 as a theorem: `Power(Constant(1), Reciprocal(x))` at `x = 0` -/
+theorem power_base_one_shortcut_still_raises (x : String) :
+    fwdG realNum [(x, 0)] x (mkPow (mkConst 1) (mkRecip (mkVar x))) = .error .domain := by
+  apply (fwd_domain_iff _ _ _ (by simp [WF]) (by simp [Supp, Point.get?])).mpr
+  apply ((evalR_good _ _ (by simp [WF])).domain_iff (by simp [Supp, Point.get?])).mpr
+  simp [Dom, den, valOf, Point.get?]
+
+/-- non-vacuity: supplied points inside and outside the domain of an expression whose undefined
+part is skippable -/
+example :
+    let e : Expr ℝ := mkMul [mkConst 0, mkLog (mkVar "x") (Real.exp 1)]
+    WF e ∧ Supp [("x", (1 : ℝ))] e ∧ Dom (valOf [("x", 1)]) e ∧ Supp [("x", (-1 : ℝ))] e ∧
+      ¬ Dom (valOf [("x", -1)]) e := by
+  simp [WF, WFList, Supp, SuppList, Dom, DomList, den, valOf, Point.get?, Real.exp_pos,
+    exp_one_ne_one]
+
 end Smooth
